@@ -174,6 +174,8 @@ class Intersection:
         Filter the pairs (t*, u*) such abs(curvea(t*) - curveb(u*)) > tolerance
         """
         pairs = heavy.totuple(pairs)
+        if len(pairs) == 0:
+            return tuple()
         distances = np.empty(len(pairs), dtype="float64")
         for k, (pti, puj) in enumerate(pairs):
             pointati = curvea.eval(pti)
@@ -181,6 +183,7 @@ class Intersection:
             distances[k] = np.linalg.norm(pointati - pointbuj)
         distances = np.abs(distances)
         matchs = np.abs(distances - np.min(distances)) < tolerance
+        matchs *= distances < 1e-6
         pairs = np.array(pairs, dtype="float64")[matchs]
         return heavy.totuple(pairs)
 
